@@ -323,7 +323,7 @@ fn env_for(r: &mut Prng, hostile: bool) -> Env {
     }
 }
 
-fn failed(o: &C19Outcome) -> Option<String> {
+fn failed(entry: &str, o: &C19Outcome) -> Option<String> {
     if let Some((f, a, b)) = &o.restored_differs {
         return Some(format!("restored value differs from the original at `{f}`: original {a}, restored {b}"));
     }
@@ -338,7 +338,7 @@ fn failed(o: &C19Outcome) -> Option<String> {
         return Some("restored value differs from the original at `<json round trip>`: the JSON round trip succeeds but the restored value is observably different".into());
     }
     if let Some(n) = &o.json_note {
-        if !json_exempt(n) {
+        if !json_exempt(entry, n) {
             return Some(format!("restored value differs from the original at `<json round trip>`: {n}"));
         }
     }
@@ -347,9 +347,14 @@ fn failed(o: &C19Outcome) -> Option<String> {
 
 /// JSON cannot represent non-finite floats (serde_json writes `null` and refuses to read it
 /// back as a float) nor maps with non-string keys: a format limitation, not a linfa defect
-fn json_exempt(note: &str) -> bool {
-    note.contains("invalid type: null") || note.contains("key must be a string")
+fn json_exempt(entry: &str, note: &str) -> bool {
+    note.contains("invalid type: null") || (note.contains("key must be a string") && JSON_NON_STRING_KEYS.contains(&entry))
 }
+
+/// entries whose value holds a map keyed by something JSON cannot write as an object key
+/// (reviewed by hand: naive-Bayes models keep `HashMap<L, ClassInfo>`, and `None` is no JSON
+/// key).  Pinned by name: the same message from any other entry is a violation.
+const JSON_NON_STRING_KEYS: &[&str] = &["nb_gauss_model_option_string", "nb_multi_model_option_string"];
 
 fn c19_job(entry: &str, p: P, a: &Env, b: &Env, storage_seed: u64) -> Job {
     Job { id: 0, kind: JobKind::C19 { entry: entry.to_string(), p, env_a: a.clone(), env_b: b.clone(), storage_seed } }
@@ -480,7 +485,7 @@ pub fn check(tier: &str, seed: u64, only: Option<&str>) -> i32 {
         if ea.entropy_seed != eb.entropy_seed || o.storage.short_writes + o.storage.short_reads + o.storage.write_interrupts + o.storage.read_interrupts > 0 {
             distinct.insert(crate::fp::fnv(serde_json::to_string(&jobs[i].kind).unwrap().as_bytes()));
         }
-        if let Some(why) = failed(&o) {
+        if let Some(why) = failed(&e.name, &o) {
             failing.push((i, why));
         }
     }
@@ -506,7 +511,7 @@ pub fn check(tier: &str, seed: u64, only: Option<&str>) -> i32 {
         // minimise in fresh processes: benign storage, then equal environments, then smallest data
         let mut cur = (p, env_a, env_b, storage_seed);
         let mut msg = why.clone();
-        let try_it = |c: &(P, Env, Env, u64)| -> Option<String> { failed(&outcome_of(&run_in_fresh_process(&[c19_job(&e.name, c.0, &c.1, &c.2, c.3)])[0])) };
+        let try_it = |c: &(P, Env, Env, u64)| -> Option<String> { failed(&e.name, &outcome_of(&run_in_fresh_process(&[c19_job(&e.name, c.0, &c.1, &c.2, c.3)])[0])) };
         match try_it(&cur) {
             Some(m) => msg = m,
             None => {
@@ -600,7 +605,7 @@ pub fn replay(v: &serde_json::Value) -> i32 {
     let b: Env = serde_json::from_value(v["env_b"].clone()).unwrap_or_else(|e| harness_error(&format!("replay env_b: {e}")));
     let s = v["storage_seed"].as_u64().unwrap_or(0);
     let o = outcome_of(&run_in_fresh_process(&[c19_job(&entry, p, &a, &b, s)])[0]);
-    match failed(&o) {
+    match failed(&entry, &o) {
         Some(m) => {
             println!("C19 replay: {entry}: {m}");
             1
